@@ -479,6 +479,9 @@ int64_t bstr_util_mem_to_pint(const void *_data, size_t len, int base, size_t *l
 
     *lastlen = i + 1;
 
+    // We didn't see a single digit.
+    if (!tflag) return -1;
+
     return rval;
 }
 
